@@ -28,6 +28,9 @@ def run(eng, ctx):
 
     trailer_unused(eng, ctx, "C08.D4")
     SH.assembler_result(eng, ctx, "C01.D8", m)
+    # "turning parsing off returns the same raw frames in the same order": through iteration too - the iterator ends only when BOTH elements of a
+    # result are None (an item without a parsed object is not the end of the data); loop exits of read() (C02-D6, shared)
+    SH.loop_continuation(eng, ctx, "C02.D6", m)
     opts = SH.reader_option_fields(eng)
     vf, pf = opts.get("validate"), opts.get("parsed")
     parse = eng.repo.func(f"{eng.reader_cls}.parse")
